@@ -13,7 +13,7 @@ import (
 func init() {
 	register("C08", &propDef{
 		Title: "A finished bundle contains everything that was added or discovered",
-		Rules: []func(*Checker){ruleC08NoDrop, ruleC08Callbacks, ruleC08Manifest, ruleC08SameJoin, ruleC08Lookup, ruleC08Meta},
+		Rules: []func(*Checker){ruleC08NoDrop, ruleC08Drain, ruleC08Callbacks, ruleC08Manifest, ruleC08SameJoin, ruleC08Lookup, ruleC08Meta},
 		NotDecided: []string{
 			"transitive closure over arbitrary dependency graphs and the content of fetched files (run-time facts)",
 			"that looked-up paths exist on disk",
@@ -22,6 +22,7 @@ func init() {
 	register("C09", &propDef{
 		Title: "A bundle survives being re-opened and archived",
 		Rules: []func(*Checker){ruleC09Fields, ruleC09Archive, ruleChecksum("C09.checksum"), ruleC06ManifestAs("C09.addrs"),
+			ruleRootSymmetric("C09.symmetric"),
 			aliasRuleFiltered(ruleC06CanonURL, "C06.canonurl", "C09.canonkey", 1, func(o Oblig) bool { return strings.Contains(o.Key, "canonical") }),
 			aliasRuleFiltered(ruleC13Maps, "C13.maps", "C09.lookup", 3, func(o Oblig) bool { return strings.Contains(o.Key, "sourcebundle.Bundle)") || strings.Contains(o.Key, "sourcebundle.OpenDir/") })},
 		NotDecided: []string{
@@ -31,7 +32,7 @@ func init() {
 	})
 	register("C10", &propDef{
 		Title: "Bundle package directories are sanitised",
-		Rules: []func(*Checker){ruleC10Walked, ruleC10Exits, ruleC10Links, ruleC10Tmp, ruleC10Inside, ruleC03PruneAs("C10.ignored"), ruleC03BundleAs("C10.removed")},
+		Rules: []func(*Checker){ruleC10Walked, ruleC10Exits, ruleC10Links, aliasRuleFiltered(ruleC13Names, "C13.names", "C10.hash", 1, func(o Oblig) bool { return strings.Contains(o.Key, "directory name is a content hash") }), ruleC10Tmp, ruleC10Inside, ruleC03PruneAs("C10.ignored"), ruleC03BundleAs("C10.removed")},
 		NotDecided: []string{
 			"what filepath.EvalSymlinks resolves to; races with other processes modifying the temporary directory",
 			"what the fetcher itself writes",
@@ -47,7 +48,7 @@ func init() {
 	})
 	register("C18", &propDef{
 		Title: "Bundle path lookups stay inside the bundle and invert each other",
-		Rules: []func(*Checker){ruleC18DirName, ruleC18Join, ruleC18Reverse},
+		Rules: []func(*Checker){ruleC18DirName, ruleC18Join, ruleC18Reverse, ruleRootSymmetric("C18.symmetric")},
 		NotDecided: []string{
 			"inversion as an equation on strings (forward then reverse lookup returning the same path)",
 		},
@@ -1663,5 +1664,161 @@ func ruleC10Links(c *Checker) {
 			c.check(ok, R, name, fmt.Sprintf("exit %d: link target spelling judged", i), p.Pos(r.Pos()), "for a link, reached only past IsAbs-false and the \"..\" tests of its target from the root", "a link can be kept on where it resolves during the walk alone ("+why+"): spelled through the directory's temporary name it dangles, pointing out of its package, once the directory is renamed")
 		}
 		c.check(n > 0, R, name, "exits reachable for links", p.Pos(fn.Pos()), fmt.Sprintf("%d", n), "no non-error exit of the walk can be reached for a symlink entry (links are no longer kept at all)")
+	}
+}
+
+// C08.drain — the queues are drained before the call returns.
+func ruleC08Drain(c *Checker) {
+	const R = "C08.drain"
+	c.rule(R, "The queue-draining function returns only with both pending queues empty — every return lies past the is-empty edge of a length test of each queue — or after it has itself recorded an error diagnostic (a store of the DiagError severity constant into a diagnostic it appends), which poisons the builder. Returning early on anything else (a finder's warning) leaves reported dependencies queued: no call fails, Close succeeds, and the dependencies are missing from the bundle.", 1)
+	p := c.P
+	fn, _ := drainFunc(p)
+	if fn == nil {
+		c.anchorMissing(R, "the queue-draining function (caller of FindDependencies)")
+		return
+	}
+	name := p.FuncName(fn)
+	emptyEdges := map[string][]Edge{}
+	for _, b := range fn.Blocks {
+		ifi, ok := b.Instrs[len(b.Instrs)-1].(*ssa.If)
+		if !ok {
+			continue
+		}
+		cond, neg := stripNot(ifi.Cond)
+		bo, ok := cond.(*ssa.BinOp)
+		if !ok {
+			continue
+		}
+		cl, ok := bo.X.(*ssa.Call)
+		if !ok {
+			continue
+		}
+		bi, ok := cl.Call.Value.(*ssa.Builtin)
+		if !ok || bi.Name() != "len" {
+			continue
+		}
+		ld, ok := canon(cl.Call.Args[0]).(*ssa.UnOp)
+		if !ok {
+			continue
+		}
+		fa, ok := ld.X.(*ssa.FieldAddr)
+		if !ok || !isNamedT(derefType(fa.X.Type()), "Builder") || !strings.HasPrefix(fieldOf(fa).Name(), "pending") {
+			continue
+		}
+		k, isC := constInt(bo.Y)
+		if !isC {
+			continue
+		}
+		// which edge means "empty"
+		var emptyOnTrue bool
+		switch {
+		case bo.Op == token.GTR && k == 0, bo.Op == token.NEQ && k == 0, bo.Op == token.GEQ && k == 1:
+			emptyOnTrue = false
+		case bo.Op == token.EQL && k == 0, bo.Op == token.LEQ && k == 0, bo.Op == token.LSS && k == 1:
+			emptyOnTrue = true
+		default:
+			continue
+		}
+		if neg {
+			emptyOnTrue = !emptyOnTrue
+		}
+		succ := 1
+		if emptyOnTrue {
+			succ = 0
+		}
+		emptyEdges[fieldOf(fa).Name()] = append(emptyEdges[fieldOf(fa).Name()], Edge{b, succ})
+	}
+	if len(emptyEdges) < 2 {
+		c.fail(R, name, "queue length tests", p.Pos(fn.Pos()), fmt.Sprintf("length tests found for %d pending queue(s): the drain loop is not recognised", len(emptyEdges)))
+		return
+	}
+	isErrDiag := func(in ssa.Instruction) bool {
+		st, ok := in.(*ssa.Store)
+		if !ok {
+			return false
+		}
+		fa, ok := st.Addr.(*ssa.FieldAddr)
+		if !ok || fieldOf(fa) == nil || fieldOf(fa).Name() != "severity" {
+			return false
+		}
+		k, isC := constInt(st.Val)
+		return isC && k == 'E'
+	}
+	n := 0
+	for i, r := range returnsOf(fn) {
+		n++
+		drained := true
+		for _, es := range emptyEdges {
+			if !guarded(r.Block(), es) {
+				drained = false
+			}
+		}
+		okErr, _ := mustPassBackward(r, isErrDiag)
+		c.check(drained || okErr, R, name, fmt.Sprintf("return %d with the queues drained", i), p.Pos(r.Pos()), "past the is-empty edge of both queues' length tests (or after recording an error of its own)", "the drain loop can be left with items still queued and no error recorded (e.g. at the first diagnostic a finder returns, a warning included): the dependencies still queued are never fetched, no call reports anything and Close succeeds")
+	}
+	c.check(n > 0, R, name, "returns", p.Pos(fn.Pos()), fmt.Sprintf("%d", n), "no return found")
+}
+
+// C18.symmetric / C09.symmetric — the root and the path compared with it are
+// canonicalised the same way.
+func ruleRootSymmetric(id string) func(*Checker) {
+	return func(c *Checker) {
+		c.rule(id, "Where a Bundle method takes a path relative to the bundle root (filepath.Rel with the rootDir field as base), both operands went through the same canonicalisation: either both are resolved physically (filepath.EvalSymlinks on the value stored in rootDir and on the argument) or neither is. Resolving one side only makes every path of a bundle reached through a symbolic link 'not belong to the bundle', while the bundle returned by Close — built at a link-free spelling — answers properly.", 1)
+		p := c.P
+		rv := p.FieldVar(bundlePkg, "Bundle", "rootDir")
+		if rv == nil {
+			c.anchorMissing(id, "sourcebundle.Bundle.rootDir")
+			return
+		}
+		physical := func(v ssa.Value) bool {
+			for w := range p.backSlice(v, 1) {
+				if cl, ok := w.(*ssa.Call); ok && isFunc(calleeObj(cl), "path/filepath", "EvalSymlinks") {
+					return true
+				}
+			}
+			return false
+		}
+		rootPhysical, nStores := false, 0
+		for _, fn := range p.Funcs {
+			if !inBundlePkg(p, fn) {
+				continue
+			}
+			for _, st := range storesToField(fn, rv) {
+				nStores++
+				if physical(st.Val) {
+					rootPhysical = true
+				}
+			}
+		}
+		if nStores == 0 {
+			c.anchorMissing(id, "a store to Bundle.rootDir")
+			return
+		}
+		n := 0
+		for _, fn := range p.Funcs {
+			if !inBundlePkg(p, fn) {
+				continue
+			}
+			for _, ci := range callsTo(fn, func(o *types.Func) bool { return isFunc(o, "path/filepath", "Rel") }) {
+				cl := ci.(*ssa.Call)
+				isRoot := false
+				if ld, ok := canon(cl.Call.Args[0]).(*ssa.UnOp); ok {
+					if fa, ok := ld.X.(*ssa.FieldAddr); ok && fieldOf(fa) == rv {
+						isRoot = true
+					}
+				}
+				if !isRoot {
+					continue
+				}
+				n++
+				argPhysical := physical(cl.Call.Args[1])
+				why := "the argument is resolved with filepath.EvalSymlinks but the root it is compared with is only made absolute"
+				if rootPhysical && !argPhysical {
+					why = "the root is stored resolved with filepath.EvalSymlinks but the path compared with it is only made absolute"
+				}
+				c.check(rootPhysical == argPhysical, id, p.FuncName(fn), "root and path canonicalised alike", p.Pos(cl.Pos()), fmt.Sprintf("EvalSymlinks on the root: %v, on the path: %v", rootPhysical, argPhysical), why+": for a bundle directory reached through a symbolic link every file is reported as not belonging to the bundle")
+			}
+		}
+		c.check(n > 0, id, "-", "paths taken relative to the root", "-", fmt.Sprintf("%d site(s)", n), "no Bundle method takes a path relative to rootDir with filepath.Rel")
 	}
 }
